@@ -7,7 +7,7 @@ from .. import simdb
 from ..seqschema import pool
 
 DETACHED_OPS = ('d_read', 'd_set', 'd_setmany', 'd_rel', 'd_add', 'd_remove', 'd_clear', 'd_assign', 'd_del', 'd_flush',
-                'd_load', 'd_coll', 'd_mix', 'd_todict')
+                'd_load', 'd_coll', 'd_mix', 'd_todict', 'd_json')
 
 SESSION_OVER = (core.DatabaseSessionIsOver,)
 DELETED = (core.OperationWithDeletedObjectError,)
@@ -108,6 +108,24 @@ class DetachedMixin(object):
             elif how == 'committed' and not gone and not mo.deleted and got != mo.vals.get(at.name):
                 self.viol('C32', 'snapshot-differs-from-committed-value', '%s.%s' % (mo.ent, at.name),
                           '%s: read %r, the session committed %r' % (self.cur_op_desc, got, mo.vals.get(at.name)))
+        elif name == 'd_json':
+            # a change made in place inside a tracked Json value of a finished-session object
+            pa = getattr(P, 'meta', None)
+            if pa is None or h._vals_ is None or not isinstance(h._vals_.get(pa), dict):
+                return
+            cur = h._vals_[pa]
+            before = repr(dict(cur))
+            k = b % 3
+            if k == 0:
+                fn = lambda: cur.__setitem__('k', 90 + c % 5)
+            elif k == 1 and isinstance(cur.get('l'), list):
+                fn = lambda: cur['l'].append(90 + c % 5)
+            else:
+                fn = lambda: cur.update({'z': 1})
+            self._expect_raise(name, fn, gone)
+            if repr(dict(cur)) != before and not gone:
+                self.viol('C32', 'finished-session-object-changed', '%s.meta' % mo.ent,
+                          '%s: the Json value of a finished-session object changed from %s to %r' % (self.cur_op_desc, before, dict(cur)))
         elif name == 'd_set':
             if not scalars:
                 return
